@@ -31,7 +31,7 @@ std::vector<CheckDef>& check_table()
 		  "seeded sequences of create/overwrite/append/truncate/delete/rename/move across disks/copy with stamp/touch/links/dirs/swap of two names/inode reuse between syncs, with and without UUIDs, all four scan orders, parallel or sequential disk scan under seeded schedules. "
 		  "Before each sync diff must exit 2 exactly when the walk of the disks differs from the decoded content (path, size, stamp, link target; inode-only = don't care; empty dirs ignored) or the previous sync was incomplete; after a successful complete sync: every new/changed file was read "
 		  "(trace), decoded content == disks incl. empty dirs, diff exits 0, list -l == disks, check exits 0. Non-trivial = a run with at least one successful complete sync judged; distinct = (config, op sequence) hashes" },
-		{ "C13", "exploration", { { "sched", 500, 15000 } },
+		{ "C13", "exploration", { { "sched", 2500, 60000 } },
 		  "per seeded scenario (array with pending changes + sync variant, or scrub; optionally a data read EIO addressed by (disk, n-th read), a bandwidth limit (timer wake-ups) or an early SIGINT/SIGTERM) the command runs once without worker threads "
 		  "(io cache 1, sequential scan) and then 6 (quick) / 16 (thorough) times with cache depth in {3,4,5,8,17,128}, signal inside/outside the mutex, parallel scan, under scheduling policies random / PCT priorities / round-robin / starve-one-worker / main-first / main-last / fifo "
 		  "with spurious cond wake-ups: parity files, content file, error tag set, scan classification (add == copy), exit status and stripe order must equal the single-threaded result; the buffer ownership state machine runs over the io.c hand-over events of every threaded command; deadlock = no runnable thread, livelock = step bound. "
@@ -40,6 +40,11 @@ std::vector<CheckDef>& check_table()
 		  "(1) the syscall-level write policy (command x call class x path class) is evaluated over the trace of every command of every family, including commands that end in errors or are killed; (2) the footprint family runs status/diff/list/dup/check "
 		  "with filters/devices/scrub plans/touch/pool/fix with filters/sync variants/rehash on healthy, unsynced, damaged and partially lost arrays and diffs a byte+mtime+inode snapshot of data, parity, content and pool before/after each: read-only commands change "
 		  "nothing, scrub only content, sync only content+parity, fix never content and only files/parity it reports, pool only the pool directory, touch only zero sub-second stamps. Non-trivial = every snapshot-judged command; distinct = (command line, run) hashes" },
+		{ "C05", "exploration", { { "fixsafe", 12000, 200000 } },
+		  "seeded histories that leave pending / replaced / deleted blocks behind: complete and -B partial syncs, sync killed after the parity update, syncs during which a file is touched / removed / truncated / appended / rewritten / unreadable (EIO, EACCES) exactly when sync "
+		  "first opens it (concurrent-change and I/O faults addressed by file), further changes after the last sync; then damage without any per-stripe budget (devices lost, files deleted/truncated/extended, blocks flipped with the stamp restored, parity damaged) and fix with "
+		  "random -m/-e/-b/-f/-d filters. Judged per recorded file against the harness version store (blocks selected by recorded hash): correct bytes, or reported unrecoverable with failing exit and counted; recovered => correct; nothing the log does not mention and no unknown file is written. "
+		  "Non-trivial = a fix in which at least one file could be judged" },
 		{ "C06", "exploration", { { "parity-inv", 4000, 80000 }, { "crash", 16, 400 } },
 		  "seeded histories of file-system changes interleaved with sync variants/scrub/fix/touch/rehash/check under seeded schedules; the independent parity oracle runs after every command. "
 		  "A run is non-trivial when at least one fully synced stripe was compared with parity and >= 3 commands ran; distinct = distinct (config, op sequence) hashes" },
